@@ -61,6 +61,9 @@ func (n *node) String() string {
 		for _, k := range n.kids {
 			parts = append(parts, k.String())
 		}
+		if n.ctor != "" {
+			return "C(" + strings.Join(parts, ";") + "){" + n.ctor + "}"
+		}
 		return "C(" + strings.Join(parts, ";") + ")"
 	}
 }
@@ -118,6 +121,18 @@ func mkFin(ctor string) *node {
 	return n
 }
 
+// mkStep: what NewStep(from, to, step, d) is: a composite of const parts (or one const part when from == to)
+func mkStep(from, to float64, step int64, d int64) *node {
+	if from == to {
+		return mkFin(fmt.Sprintf("const:%g:%d", from, d))
+	}
+	n := &node{kind: "C", ctor: fmt.Sprintf("step:%g:%g:%d:%d", from, to, step, d)}
+	for i := from; i <= to; i += float64(step) {
+		n.kids = append(n.kids, mkFin(fmt.Sprintf("const:%g:%d", i, d)))
+	}
+	return n
+}
+
 type genOpt struct {
 	unstarted bool // no far-future leaves, unlimited parts only of 20h
 	noUnl     bool
@@ -136,6 +151,10 @@ func genLeaf(r *rand.Rand, o genOpt) *node {
 	case 6:
 		return mkFin(fmt.Sprintf("line:%d:%d:%d", r.Intn(4), 1+r.Intn(5), []int64{1e9, 2e9}[r.Intn(2)]))
 	case 7:
+		if r.Intn(3) == 0 {
+			f := float64(r.Intn(4))
+			return mkStep(f, f+float64(r.Intn(7)-1), int64(1+r.Intn(3)), []int64{1e9, 5e8}[r.Intn(2)])
+		}
 		if r.Intn(2) == 0 {
 			f := int64(r.Intn(3))
 			st := int64(1 + r.Intn(3))
@@ -337,7 +356,13 @@ func parseTree(s string) (*node, string) {
 		rest := s[2:]
 		for {
 			if strings.HasPrefix(rest, ")") {
-				return n, rest[1:]
+				rest = rest[1:]
+				if strings.HasPrefix(rest, "{") {
+					k := strings.IndexByte(rest, '}')
+					n.ctor = rest[1:k]
+					rest = rest[k+1:]
+				}
+				return n, rest
 			}
 			if strings.HasPrefix(rest, ";") {
 				rest = rest[1:]
@@ -362,6 +387,14 @@ func buildReal(n *node, atomicKids bool) core.Schedule {
 		return schedule.NewUnlimited(time.Duration(n.dur))
 	case "I":
 		return schedule.NewInstanceStep(n.is[0], n.is[1], n.is[2], time.Duration(n.is[3]))
+	}
+	if strings.HasPrefix(n.ctor, "step:") {
+		p := strings.Split(n.ctor, ":")
+		f, _ := strconv.ParseFloat(p[1], 64)
+		t, _ := strconv.ParseFloat(p[2], 64)
+		st, _ := strconv.ParseInt(p[3], 10, 64)
+		d, _ := strconv.ParseInt(p[4], 10, 64)
+		return schedule.NewStep(f, t, st, time.Duration(d))
 	}
 	var kids []core.Schedule
 	for _, k := range n.kids {
@@ -460,6 +493,9 @@ func main() {
 			}
 			if strings.Count(m["tree"], "C(") > 1 {
 				c += "/nested"
+			}
+			if strings.Contains(m["tree"], "{step:") {
+				c += "/step"
 			}
 			if strings.Contains(m["tree"], "I") {
 				c += "/instance_step"
